@@ -2,6 +2,7 @@ package linter
 
 import (
 	"fmt"
+	"slices"
 	"strings"
 	"sync"
 
@@ -24,6 +25,8 @@ type Linter struct {
 	lexers     map[string]*lexer.Lexer
 	ignore     *ignore
 	conf       *config.LinterConfig
+	// names of the module files whose inclusion is being expanded, outermost first
+	includeStack []string
 }
 
 func New(c *config.LinterConfig, opts ...optionFunc) *Linter {
@@ -465,6 +468,21 @@ func (l *Linter) resolveFileInclusion(
 		l.Error(e.Match(INCLUDE_STATEMENT_MODULE_LOAD_FAILED))
 		return statements
 	}
+
+	// A module that includes itself, directly or through other modules, would be expanded forever
+	if slices.Contains(l.includeStack, module.Name) {
+		e := &LintError{
+			Severity: ERROR,
+			Token:    include.GetMeta().Token,
+			Message:  fmt.Sprintf("Cyclic include detected: %s includes itself", module.Name),
+		}
+		l.Error(e.Match(INCLUDE_STATEMENT_MODULE_LOAD_FAILED))
+		return statements
+	}
+	l.includeStack = append(l.includeStack, module.Name)
+	defer func() {
+		l.includeStack = l.includeStack[:len(l.includeStack)-1]
+	}()
 
 	if isRoot {
 		statements = l.loadVCL(module.Name, module.Data)
